@@ -9,7 +9,7 @@
 From Coq Require Import Strings.String Strings.Byte.
 From Coq Require Import List Arith NArith Bool Lia.
 From Verif Require Import Model.Lockset Model.LockTable Model.C14Allow
-     Proofs.LocksetProofs Proofs.LockTableProofs Generated.C14Locks.
+     Proofs.LocksetProofs Proofs.LockTableProofs Proofs.LocksetExecProofs Generated.C14Locks.
 Import ListNotations.
 
 (* For every execution - any number of threads, any interleaving that respects mutual exclusion
@@ -78,6 +78,20 @@ Print Assumptions C14_broken_discipline_refuted.
 Theorem C14_racy_trace_follows_no_discipline : forall D, follows D init racy_trace = false.
 Proof. exact racy_trace_follows_nothing. Qed.
 Print Assumptions C14_racy_trace_follows_no_discipline.
+
+(* The executable definitions that the correspondence check runs against the Go race detector
+   (Corr/C14.v: [wfb], [races]) are exactly the relational notions of the theorems above. *)
+Theorem C14_executable_races_exact : forall tr i j, In (i, j) (races tr) <-> race_at tr i j.
+Proof. exact races_exact. Qed.
+Print Assumptions C14_executable_races_exact.
+
+Theorem C14_executable_raceb_exact : forall tr, raceb tr = true <-> race tr.
+Proof. exact raceb_exact. Qed.
+Print Assumptions C14_executable_raceb_exact.
+
+Theorem C14_executable_wfb_exact : forall tr, wfb tr = true <-> wf init tr.
+Proof. exact wfb_exact. Qed.
+Print Assumptions C14_executable_wfb_exact.
 
 (* Non-vacuity of the premises: a disciplined, well-formed two-thread execution. *)
 Example C14_example_locked :
